@@ -16,6 +16,13 @@ def gen_table(rng, prefix_free_codes=True):
     texts = set()
     # letters, digits, blank and punctuation, and characters outside ASCII (accented Latin, kana, a symbol) as real script tables hold them
     pool = "abcdeXYZ 01_-" + ("\u00e9\u00f4\u30a2\u00a7" if rng.random() < 0.5 else "")
+    r = rng.random()
+    if r < 0.15:
+        # characters some line-splitting functions treat as line boundaries although a text file's lines do not end there
+        pool += "\x0b\x0c\x1c\x1d\x1e\x85\u2028\u2029"
+    elif r < 0.3:
+        # entries that are a prefix of the escape syntax: the escape still emits its raw byte
+        texts |= set(rng.sample(["[", "[0", "[0x", "]", "0x", "x"], rng.randint(1, 3)))
     while len(texts) < rng.randint(2, 7):
         t = "".join(rng.choice(pool) for _ in range(rng.choice([1, 1, 1, 2, 3])))
         if t.strip() == "" and len(t) > 1:
